@@ -10,6 +10,7 @@ Mirrors, as written today:
   pkg/descheduler/apis/config/v1alpha2/defaults.go               SetDefaults_DeschedulerConfiguration (does not touch the three caps)
   pkg/descheduler/apis/config/v1alpha2/zz_generated.conversion.go  autoConvert_v1alpha2_DeschedulerConfiguration_To_config_… (pointer casts)
   cmd/koord-descheduler/app/options/configfile.go                loadConfig (UniversalDecoder: decode, default, convert)
+  pkg/descheduler/apis/config/v1alpha2/defaults.go               SetDefaults_MigrationControllerArgs (the five arbitration limits)
   cmd/koord-descheduler/app/server.go                            Setup: NewEvictionLimiter(cc.ComponentConfig.MaxNoOfPodsToEvict{PerNode,PerNamespace,Total})
 -/
 namespace KoordVerif.C16
@@ -108,6 +109,17 @@ def loadCap (d : CapDecl) : Option Nat := convertCap (defaultCap (decodeCap d))
 
 /-- Setup: `NewEvictionLimiter(cc.ComponentConfig.MaxNoOfPodsToEvictPerNode, …PerNamespace, …Total)`, in this order -/
 def configCaps (node ns total : CapDecl) : Caps := ⟨loadCap node, loadCap ns, loadCap total⟩
+
+/-! ## From the MigrationController plugin config to the arbitration limits (decode → default → convert) -/
+
+/-- v1alpha2/defaults.go `defaultMaxMigratingPerNode` -/
+def defaultMaxMigratingPerNode : Int := 2
+
+/-- SetDefaults_MigrationControllerArgs as far as the arbitration limits go: `if obj.MaxMigratingPerNode == nil` it becomes
+    defaultMaxMigratingPerNode; MaxMigratingGlobally / PerNamespace / PerWorkload, MaxUnavailablePerWorkload,
+    SkipEvictionGates and SkipCheckExpectedReplicas are not mentioned; the conversion copies all of them -/
+def defaultArbCfg (cfg : ArbCfg) : ArbCfg :=
+  { cfg with maxNode := if cfg.maxNode < 0 then defaultMaxMigratingPerNode else cfg.maxNode }
 
 /-- the seeded shape that was missed: defaulting turns an explicit 0 into nil -/
 def defaultCapZeroNil (c : Option Nat) : Option Nat := if c = some 0 then none else c
